@@ -701,7 +701,7 @@ impl<'a> VdafVisitor for Run<'a> {
                                     bump(true);
                                 }
                             }
-                            Op::FlipBit { msg: MsgSel::VerifierShare(j), .. } | Op::XorByte { msg: MsgSel::VerifierShare(j), .. } | Op::XorMulti { msg: MsgSel::VerifierShare(j), .. } | Op::AddElem { msg: MsgSel::VerifierShare(j), .. } | Op::AddElemAt { msg: MsgSel::VerifierShare(j), .. } | Op::Truncate { msg: MsgSel::VerifierShare(j), .. } | Op::Extend { msg: MsgSel::VerifierShare(j), .. } => {
+                            Op::FlipBit { msg: MsgSel::VerifierShare(j), .. } | Op::XorByte { msg: MsgSel::VerifierShare(j), .. } | Op::XorMulti { msg: MsgSel::VerifierShare(j), .. } | Op::AddElem { msg: MsgSel::VerifierShare(j), .. } | Op::AddElemAt { msg: MsgSel::VerifierShare(j), .. } | Op::AddElemPair { msg: MsgSel::VerifierShare(j), .. } | Op::Truncate { msg: MsgSel::VerifierShare(j), .. } | Op::Extend { msg: MsgSel::VerifierShare(j), .. } => {
                                 let j = *j as usize % shares.len();
                                 let ch = mutate_bytes(&mut shares[j], op, es, (0, verifier_len_total), &p);
                                 bump(ch);
